@@ -13,9 +13,9 @@ EXPLANATION = ('What the code asks the filesystem for, on every path: (R09.1) th
                'lookup, after open:Ok every path to the hit exit runs the re-touch probe; after a successful stat every such path '
                'tests a predicate implied by atime < mtime (decided over the three orderings), and on its true edge the atime update '
                'follows; (R09.4) the insertion stamp is utimens(source, atime = from_unix_time(secs(now) - D, nanos(now)), mtime = '
-               'now) with D a constant >= 3 s; (R09.5) put on an existing key touches it (= R04.2); (R09.6) the read mark maintenance tests is true for atime == mtime, which is what a touch may leave on a coarse-granularity filesystem. Timestamp behaviour of real '
+               'now) with D a constant >= 3 s; (R09.5) put on an existing key touches it (= R04.2); (R09.7) in put, the only effects whose object is (directory + key) are the exclusive link and the atime touch: no rename onto it, utimens with an mtime, chmod, writable open or unlink; (R09.6) the read mark maintenance tests is true for atime == mtime, which is what a touch may leave on a coarse-granularity filesystem. Timestamp behaviour of real '
                'filesystems is not decided.')
-FLOORS = {'R09.6': 1, 'R09.1': 8, 'R09.2': 2, 'R09.3': 4, 'R09.4': 2, 'R09.5': 1}
+FLOORS = {'R09.7': 3, 'R09.6': 1, 'R09.1': 8, 'R09.2': 2, 'R09.3': 4, 'R09.4': 2, 'R09.5': 1}
 
 LOOKUPS = ['plain::Cache::get', 'plain::Cache::touch', 'sharded::Cache::get', 'sharded::Cache::touch', 'raw_cache::touch',
            'raw_cache::ensure_file_touched']
@@ -184,6 +184,41 @@ def r09_6(ctx):
     return out
 
 
+def r09_7(ctx):
+    """put never moves or rewrites what is at (directory + key): on every path of the cache-directory put and of the
+    public put operations, the only filesystem effects whose object is the destination name are the exclusive link and
+    the atime touch.  A rename onto it, a utimens with an mtime, a chmod, a writable open or an unlink would change the
+    content or the queue position of an entry that was already there."""
+    out = []
+    m = ctx.cachedir_methods()
+    entries = [('cachedir.put', m['put'])] + [(p, ctx.key_of(p)) for p in ('plain::Cache::put', 'sharded::Cache::put')]
+    harmless = {'publish_excl', 'meta_atime'}
+    for name, k in entries:
+        q = ctx.explore(k)
+        bad = []
+        seen = 0
+        for e in q.prim_edges(prims.MUTATING | {'publish_replace', 'publish_excl', 'ns_remove_file'}):
+            ev = q.E[e][2]
+            c = cls_of(ev)
+            obj = arg_role(ev, 'dst') if c in ('publish_replace', 'publish_excl') else (arg_role(ev, 'path') if arg_role(ev, 'path') is not None else arg_role(ev, 'handle'))
+            if obj is None:
+                continue
+            pc = path_class(ctx, q, obj)
+            if pc not in ('Base/Key', 'Handle(Base/Key)'):
+                continue
+            seen += 1
+            if c == 'meta_times_h' and VAL[arg_role(ev, 'mtime')][0:3] == ('agg', 'std::option::Option', 'v0'):
+                continue
+            if c not in harmless:
+                bad.append((e, c, pc))
+        ok = seen > 0 and not bad
+        out.append(inst('R09.7', name, ok, 'the destination name is only ever linked to (exclusive) or atime-touched (%d effects on it)' % seen if ok else
+                        ('put can apply %s to %s: an entry already there would lose its content or queue position' % (bad[0][1], bad[0][2]) if bad else
+                         'no effect on (directory + key) found in put (anchor lost)'),
+                        path=witness_path(q, bad[0][0]) if bad else []))
+    return out
+
+
 def run(ctx):
     from runner import collect
-    return collect(ctx, r09_1, r09_2, r09_3, r09_4, r09_5, r09_6)
+    return collect(ctx, r09_1, r09_2, r09_3, r09_4, r09_5, r09_6, r09_7)
